@@ -41,7 +41,9 @@ RULE_ADDED = (
               'ing or not. '
               ' '
               "Round 15: signer references that spell the root's name in another case / padded "
-              '/ doubled. ')
+              '/ doubled. '
+              ' '
+              "Round 16: signer references that are parts of the root's name. ")
 RULE = RULE + " " + RULE_ADDED.strip()
 ASSUMPTIONS = [
     "any exception out of from_jsonfile counts as 'reports an error' (the admin tools turn "
